@@ -284,6 +284,48 @@ def extra_obligations(mods, tier, seed):
     out.append({"name": "C18/host/frames-are-row-confined-and-tick-never-raises", "status": "discharged" if not bad3 else "sat", "backend": "bounded-native", "bounded": True,
                 "where": f"{n3} host runs (4 styles x 5 widths x text lengths around the width x loop on/off x tick strides): every frame after animate() and each tick() has rows of exactly "
                          "`cols` cells, the other row is untouched, nothing raises", "time": round(time.time() - t2, 3), "replay": {"bad": bad3[:4]}, "replay_confirmed": bool(bad3)})
+    # host model, executed (BOUNDED): a non-looping animation becomes inactive within the linear bound, after exactly as many due ticks
+    # whether it is alone or other animations (looping, same row or other row) were started after it; the looping ones stay active
+    t2c = time.time()
+    bad5, n5 = [], 0
+    for style in STY:
+        for cols in (2, 8, 16):
+            for tl in (1, cols - 1, cols + 5):
+                for speed in (0, 120):
+                    text = "".join(chr(65 + (k % 26)) for k in range(tl))
+                    bound = 4 * (tl + cols) + 12
+                    counts = {}
+                    for other in [None] + [(st2, row2) for st2 in STY for row2 in (0, 1)]:
+                        n5 += 1
+                        try:
+                            lcd = HostLCD(rs=1, en=2, d4=3, d5=4, d6=5, d7=6, cols=cols, rows=2)
+                            lcd.animate(style, 0, text, speed_ms=speed, loop=False)
+                            first = list(lcd.animations.values())[0]
+                            if other is not None:
+                                lcd.animate(other[0], other[1], "xy", speed_ms=speed, loop=True)
+                            step, now, took = max(1, speed), 0, None
+                            for k in range(1, bound + 5):
+                                now += step
+                                lcd.tick(now)
+                                if not first.active:
+                                    took = k
+                                    break
+                            counts[other] = took
+                            later = [a for a in list(lcd.animations.values())[1:]]
+                            if took is None:
+                                bad5.append({"style": style, "cols": cols, "text_length": tl, "speed_ms": speed, "started_after_it": other, "problem": f"still active after {bound + 4} due ticks (bound {bound})"})
+                            elif any(not a.active for a in later):
+                                bad5.append({"style": style, "cols": cols, "text_length": tl, "speed_ms": speed, "started_after_it": other, "problem": "the looping animation started after it became inactive"})
+                        except Exception as ex:
+                            bad5.append({"style": style, "cols": cols, "text_length": tl, "speed_ms": speed, "started_after_it": other, "problem": f"{type(ex).__name__}: {ex}"})
+                    alone = counts.get(None)
+                    for o, c in counts.items():
+                        if o is not None and c is not None and alone is not None and c != alone:
+                            bad5.append({"style": style, "cols": cols, "text_length": tl, "speed_ms": speed, "started_after_it": o, "problem": f"inactive after {c} due ticks, {alone} when alone on the display"})
+    out.append({"name": "C18/host/non-looping-animation-ends-also-next-to-others", "status": "discharged" if not bad5 else "sat", "backend": "bounded-native", "bounded": True,
+                "where": f"{n5} host runs (4 styles x 3 widths x 3 text lengths x speed 0/120 x alone or followed by a looping animation of each style on either row): the non-looping "
+                         "animation is inactive within 4*(len+cols)+12 due ticks, after the same number of ticks as when alone; the looping one stays active",
+                "time": round(time.time() - t2c, 3), "replay": {"bad": bad5[:4]}, "replay_confirmed": bool(bad5)})
     # host model, executed (BOUNDED): an animate() call that raises (row outside the display, unknown style) has no effect - later ticks do
     # not raise, the animations that were running keep running, no row changes
     t2b = time.time()
